@@ -296,7 +296,7 @@ let normalize_cc (n : int) (x : cxstate) : cxstate =
 let run_tracecc infile outfile =
   let oc = open_out_bin outfile in
   let lines = read_lines infile in
-  let cur_k = ref "" and cur_n = ref 0 and header = ref "" and cur_boot = ref 0 and cur_page1 = ref false in
+  let cur_k = ref "" and cur_n = ref 0 and header = ref "" and cur_boot = ref 0 and cur_page1 = ref false and cur_skip = ref false in
   let groups : group list ref = ref [] in
   let cur : group option ref = ref None in
   let flush_group () = (match !cur with Some g -> groups := { g with g_out = List.rev g.g_out } :: !groups | None -> ()); cur := None in
@@ -304,6 +304,7 @@ let run_tracecc infile outfile =
     flush_group ();
     let gs = List.rev !groups in
     groups := [];
+    if !cur_skip then Printf.fprintf oc "S %s SKIP learners\n" !cur_k else
     let n = !cur_n in
     let boot = { c_in = List.init !cur_boot (fun i -> nat_of_int (i + 1)); c_out = []; c_auto = false } in
     let page1 = !cur_page1 in
@@ -367,7 +368,8 @@ let run_tracecc infile outfile =
   List.iter (fun l ->
       match split_ws l with
       | ["SCHEDULE"; k] -> cur_k := k; groups := []; cur := None
-      | "N" :: n :: _ :: _ :: ms :: k :: _ -> cur_n := int_of_string n; cur_boot := int_of_string k; cur_page1 := (ms = "0"); header := l
+      | "N" :: n :: _ :: _ :: ms :: k :: rest -> cur_n := int_of_string n; cur_boot := int_of_string k; cur_page1 := (ms = "0"); header := l;
+        cur_skip := (match rest with f :: _ -> int_of_string f land 4 <> 0 | [] -> false)
       | "EV" :: kind :: id :: args -> flush_group (); cur := Some { g_kind = kind; g_id = int_of_string id; g_args = args; g_out = []; g_st = None; g_panic = None }
       | "OUT" :: toks -> (match !cur with Some g -> cur := Some { g with g_out = toks :: g.g_out } | None -> ())
       | "ST" :: toks -> (match !cur with Some g -> cur := Some { g with g_st = Some toks } | None -> ())
@@ -482,10 +484,119 @@ let run_monitor infile outfile =
       | _ -> failwith ("bad trace line: " ^ l)) lines;
   close_out oc
 
+(* ---------------------------------------------------------------- tracepv mode
+   raftrun tracepv <traces.txt> <out>
+   Trace validation of schedules with Config.PreVote (header flags = 1: PreVote without
+   CheckQuorum; other schedules are skipped) against RaftPV.exec_pv through the extracted
+   check_step_pv.  XPV / XPW = MsgPreVote / MsgPreVoteResp; role Q = pre-candidate. *)
+
+let pmsg_of_tokens (toks : string list) : pmsg =
+  match toks with
+  | "XPV" :: from :: to_ :: term :: logterm :: index :: _ ->
+    PV (nat_of_int (int_of_string from), nat_of_int (int_of_string to_), nat_of_int (int_of_string term),
+        nat_of_int (int_of_string logterm), nat_of_int (int_of_string index))
+  | "XPW" :: from :: to_ :: term :: _ :: _ :: _ :: rej :: _ ->
+    PW (nat_of_int (int_of_string from), nat_of_int (int_of_string to_), nat_of_int (int_of_string term), rej = "1")
+  | _ -> PB (msg_of_tokens toks)
+
+let pmsg_str = function
+  | PB m -> msg_str m
+  | PV (f, t, tm, lt, i) -> Printf.sprintf "XPV %d %d %d %d %d" (int_of_nat f) (int_of_nat t) (int_of_nat tm) (int_of_nat lt) (int_of_nat i)
+  | PW (f, t, tm, r) -> Printf.sprintf "XPW %d %d %d %s" (int_of_nat f) (int_of_nat t) (int_of_nat tm) (if r then "reject" else "grant")
+
+let normalize_pv (n : int) (x : pxstate) : pxstate =
+  let arr = Array.init (n + 1) (fun i -> x.px_nodes (nat_of_int i)) in
+  { px_nodes = (fun y -> let i = int_of_nat y in if i <= n then arr.(i) else (init_node, false)); px_msgs = x.px_msgs }
+
+let run_tracepv infile outfile =
+  let oc = open_out_bin outfile in
+  let lines = read_lines infile in
+  let cur_k = ref "" and cur_n = ref 0 and cur_flags = ref 0 in
+  let groups : group list ref = ref [] in
+  let cur : group option ref = ref None in
+  let flush_group () = (match !cur with Some g -> groups := { g with g_out = List.rev g.g_out } :: !groups | None -> ()); cur := None in
+  let finish () =
+    flush_group ();
+    let gs = List.rev !groups in
+    groups := [];
+    if !cur_flags <> 1 then Printf.fprintf oc "S %s SKIP flags=%d\n" !cur_k !cur_flags else begin
+    let n = !cur_n in
+    let ids = List.init n (fun i -> nat_of_int (i + 1)) in
+    let c0 = ids and c1 = [] in
+    let x = ref (normalize_pv n px_init) in
+    let fail = ref None in
+    let idx = ref 0 and prevotes = ref 0 and precand = ref 0 and elections = ref 0 in
+    let prevrole = Array.make (n + 1) "F" in
+    (try
+       List.iter (fun g ->
+           incr idx;
+           let idn = nat_of_int g.g_id in
+           (match g.g_panic with
+            | Some p -> fail := Some (Printf.sprintf "event=%d reason=implementation-panic | %s %d %s | %s" !idx g.g_kind g.g_id (String.concat " " g.g_args) p); raise Exit
+            | None -> ());
+           let sttoks = match g.g_st with Some t -> strip_cfg t | None -> failwith "missing ST" in
+           let rolecode = List.nth sttoks 4 in
+           let obs_pre = (rolecode = "Q") in
+           let obs = snd (proj_of_tokens (List.map (fun t -> if t = "Q" then "F" else t) sttoks)) in
+           let outs = (try List.filter_map (fun t -> match t with "P" :: _ -> None | _ -> Some (pmsg_of_tokens t)) g.g_out
+                       with Unmodelled c -> fail := Some (Printf.sprintf "event=%d reason=unmodelled-message %s" !idx c); raise Exit) in
+           let base = if String.length g.g_kind > 1 && g.g_kind.[0] = 'X' then "R" else g.g_kind in
+           let candidates : pevent list =
+             (try match base with
+                | "C" -> [PvCampaign]
+                | "P" -> [PvPropose (nat_of_int (int_of_string (List.hd g.g_args)))]
+                | "T" ->
+                  (* a tick that fired the election timeout of a pre-candidate changes nothing that is
+                     observed (same term, same role) but restarts the pre-election: tell it by the
+                     MsgPreVote it sends *)
+                  if List.exists (fun m -> match m with PV _ -> true | _ -> false) outs then [PvCampaign; PvTick] else [PvTick; PvCampaign]
+                | "K" | "SR" -> [PvTick]
+                | "R" -> [PvRestart]
+                | "D" | "DD" -> [PvRecv (pmsg_of_tokens g.g_args)]
+                | "FP" | "FPD" -> (match g.g_args with _ :: _ :: _ :: p :: _ -> [PvPropose (nat_of_int (int_of_string p))] | _ -> failwith "bad FP")
+                | k -> failwith ("unknown event kind " ^ k)
+              with Unmodelled c -> fail := Some (Printf.sprintf "event=%d reason=unmodelled-message %s" !idx c); raise Exit) in
+           let rec try_all_ok evs = match evs with
+             | [] -> None
+             | ev :: rest -> (match check_step_pv c0 c1 !x idn ev outs obs obs_pre with PVOk x' -> Some x' | _ -> try_all_ok rest) in
+           let first_verdict = check_step_pv c0 c1 !x idn (List.hd candidates) outs obs obs_pre in
+           let verdict = match first_verdict with
+             | PVOk _ -> first_verdict
+             | v -> (match try_all_ok (List.tl candidates) with Some x' -> PVOk x' | None -> v) in
+           (match verdict with
+            | PVOk x' ->
+              if rolecode = "Q" && prevrole.(g.g_id) <> "Q" then incr precand;
+              if rolecode = "L" && prevrole.(g.g_id) <> "L" then incr elections;
+              prevrole.(g.g_id) <- rolecode;
+              (match g.g_args with "XPW" :: _ when base = "D" || base = "DD" -> incr prevotes | _ -> ());
+              x := normalize_pv n x'
+            | PVBadEvent -> fail := Some (Printf.sprintf "event=%d reason=delivered-message-never-sent | %s" !idx (String.concat " " g.g_args)); raise Exit
+            | PVMissingReply m -> fail := Some (Printf.sprintf "event=%d reason=missing-reply | model replies: %s | %s %d %s" !idx (pmsg_str m) g.g_kind g.g_id (String.concat " " g.g_args)); raise Exit
+            | PVBadEmit m -> fail := Some (Printf.sprintf "event=%d reason=forbidden-message | impl sent: %s | %s %d %s" !idx (pmsg_str m) g.g_kind g.g_id (String.concat " " g.g_args)); raise Exit
+            | PVStateMismatch (e, pre) -> fail := Some (Printf.sprintf "event=%d reason=state-mismatch | model: %s pre=%b | impl: %s pre=%b | %s %d %s" !idx (proj_str e) pre (proj_str obs) obs_pre g.g_kind g.g_id (String.concat " " g.g_args)); raise Exit)) gs
+     with Exit -> ());
+    (match !fail with
+     | Some f -> Printf.fprintf oc "S %s FAIL %s\n" !cur_k f
+     | None -> Printf.fprintf oc "S %s OK events=%d nodes=%d elections=%d precandidacies=%d prevoteresp=%d\n" !cur_k !idx n !elections !precand !prevotes)
+    end in
+  List.iter (fun l ->
+      match split_ws l with
+      | ["SCHEDULE"; k] -> cur_k := k; groups := []; cur := None
+      | "N" :: n :: rest -> cur_n := int_of_string n; cur_flags := (match rest with _ :: _ :: _ :: _ :: f :: _ -> int_of_string f | _ -> 0)
+      | "EV" :: kind :: id :: args -> flush_group (); cur := Some { g_kind = kind; g_id = int_of_string id; g_args = args; g_out = []; g_st = None; g_panic = None }
+      | "OUT" :: toks -> (match !cur with Some g -> cur := Some { g with g_out = toks :: g.g_out } | None -> ())
+      | "ST" :: toks -> (match !cur with Some g -> cur := Some { g with g_st = Some toks } | None -> ())
+      | "PANIC" :: toks -> (match !cur with Some g -> cur := Some { g with g_panic = Some (String.concat " " toks) } | None -> ())
+      | ["END"; _] -> finish ()
+      | [] -> ()
+      | _ -> failwith ("bad trace line: " ^ l)) lines;
+  close_out oc
+
 let () =
   match Array.to_list Sys.argv with
   | [_; "quorum"; i; o] -> run_quorum i o
   | [_; "trace"; i; o] -> run_trace i o
   | [_; "monitor"; i; o] -> run_monitor i o
   | [_; "tracecc"; i; o] -> run_tracecc i o
-  | _ -> prerr_endline "usage: raftrun quorum|trace|monitor|tracecc <in> <out>"; exit 3
+  | [_; "tracepv"; i; o] -> run_tracepv i o
+  | _ -> prerr_endline "usage: raftrun quorum|trace|monitor|tracecc|tracepv <in> <out>"; exit 3
